@@ -25,6 +25,36 @@ class SymStr(str):
         return o
 
 
+class FineFloat(SymFloat):
+    """a metric that differs from a printable value `coarse` by less than half a unit of the print precision: arithmetic and comparisons see the
+    exact value, printing (PassFmt) yields `coarse` - what '{:.4e}' does to base + eps*1e-6 for 0.25 <= base <= 3 (checked concretely each run)"""
+    __slots__ = ("coarse",)
+
+    def __init__(self, c, coarse):
+        super().__init__(c)
+        self.coarse = coarse
+
+
+FINE_DELTA = "1/1000000"
+
+
+def fine_metric(eng, name, lo, hi, denom=4):
+    """base k/denom (lo <= k <= hi, k >= 1) plus eps * 1e-6, eps in {-1, 0, 1}: inputs <name> (k) and <name>_eps"""
+    import z3
+    base = eng.grid(name, max(lo, 1), hi, denom)
+    eps = eng.int(name + "_eps", -1, 1)
+    return FineFloat(base + z3.ToReal(eps) * z3.RealVal(FINE_DELTA), base)
+
+
+def fine_value(vals, name, denom=4):
+    return vals[name] / denom + vals.get(name + "_eps", 0) * 1e-6
+
+
+def fine_print_ok(kmax=12, denom=4):
+    fmt = "{:.4e}"
+    return [(k, e) for k in range(1, kmax + 1) for e in (-1, 0, 1) if float(fmt.format(k / denom + e * 1e-6)) != k / denom]
+
+
 class PassFmt:
     """stands in for the '{:.4e}' metric/lr format strings: symbolic floats pass through unprinted.
     Assumption (checked concretely over the whole grid on every run): float(fmt.format(v)) == v for grid values."""
@@ -33,6 +63,8 @@ class PassFmt:
         self.fmt = fmt
 
     def format(self, v):
+        if isinstance(v, FineFloat):
+            return SymStr(SymFloat(v.coarse))
         if isinstance(v, _Sym):
             return SymStr(v)
         return self.fmt.format(v)
